@@ -32,15 +32,22 @@ def rand_rotation(rng):
                      [2*(b*d-a*c), 2*(c*d+a*b), a*a-b*b-c*c+d*d]])
 
 
-def gen_case(rng):
+def gen_case(rng, many=False):
     name, lat = gem.lattice_pool(rng)
     if name == 'skew':
         name, lat = 'tric', np.array(gem.LATTICES['tric'], float)
-    L = Lattice(lat)
     T = int(rng.integers(2, 8))
     nc = int(rng.integers(1, 3))
     bond = float(rng.uniform(0.9, 1.5))
     centres = []
+    if many:
+        # a large system: 5 x 4 x 4 copies of the cell, one tetrahedron near the middle of most sub-cells (> 256 satellite atoms)
+        name, lat = 'tric x (5,4,4)', np.array(gem.LATTICES['tric'], float) * np.array([5, 4, 4])[:, None]
+        T, bond = 2, 1.0
+        grid = [(i, j, k) for i in range(5) for j in range(4) for k in range(4)]
+        nc = int(rng.integers(66, 80))
+        centres = [(np.array(g) + 0.5 + rng.integers(-8, 9, size=3) / 64) / np.array([5, 4, 4]) for g in [grid[q] for q in rng.permutation(len(grid))[:nc]]]
+    L = Lattice(lat)
     while len(centres) < nc:
         c = rng.integers(0, 64, size=3) / 64
         if rng.random() < 0.5:
@@ -151,6 +158,13 @@ def check_case(out: Outcome, case, tag):
     tv = np.array(ori.transform(M).vectors)
     if not np.allclose(tv, np.einsum('ij,tbj->tbi', M, vec), rtol=1e-12, atol=1e-12):
         out.fail('property', 'transform', case)
+    # normalising after a change of units (Angstrom -> metre, Angstrom -> bohr x 1e5): still unit vectors, whatever the scale
+    for scale_ in (1e-10, 1.8897e5):
+        tn = np.array(ori.transform(np.eye(3) * scale_).normalize().vectors)
+        if not np.allclose(np.linalg.norm(tn, axis=-1), 1, atol=1e-12) or np.any(np.sum(tn * vec, axis=-1) <= 0):
+            out.fail('property', 'normalize', {**case, 'after_transform_by': scale_}, expected='unit vectors', observed=np.linalg.norm(tn, axis=-1).reshape(-1)[:4].tolist(),
+                     note='transform(scale x identity) followed by normalize()')
+            break
     # spherical representation invertible
     sph = np.array(ori.vectors_spherical)
     az, el, rr = np.radians(sph[..., 0]), np.radians(sph[..., 1]), sph[..., 2]
@@ -190,6 +204,8 @@ def run(tier: str, seed: int, scale: int) -> Outcome:
         check_case(out, case, 'corpus')
     for _ in range((150 if tier == 'quick' else 1500) * scale):
         check_case(out, gen_case(rng), 'random')
+    for _ in range((1 if tier == 'quick' else 4) * scale):
+        check_case(out, gen_case(rng, many=True), 'many-molecules')
     return out
 
 
